@@ -515,7 +515,6 @@ func (p *Program) ruleFloatFormat(c *Check) {
 					continue
 				}
 				args := call.Common().Args
-				val := args[1]
 				okFmt := false
 				if f, ok := args[2].(*ssa.Const); ok {
 					if ch, ok := constant.Int64Val(f.Value); ok && (ch == 'f' || ch == 'g' || ch == 'e') {
@@ -526,58 +525,51 @@ func (p *Program) ruleFloatFormat(c *Check) {
 						}
 					}
 				}
-				// guarded: dominated by the false edges of IsNaN(val) and IsInf(val, 0)
-				guards := map[string]bool{}
-				for _, d := range fn.Blocks {
-					if !d.Dominates(in.Block()) || len(d.Instrs) == 0 {
-						continue
-					}
-					iff, ok := d.Instrs[len(d.Instrs)-1].(*ssa.If)
-					if !ok {
-						continue
-					}
-					if cl, ok := iff.Cond.(*ssa.Call); ok {
-						if g := cl.Call.StaticCallee(); g != nil && len(cl.Call.Args) > 0 && cl.Call.Args[0] == val {
-							if d.Succs[1] == in.Block() || d.Succs[1].Dominates(in.Block()) {
-								guards[g.String()] = true
-							}
-						}
-					}
-				}
-				if okFmt && guards["math.IsNaN"] && guards["math.IsInf"] {
-					c.OK("E5.float", con, p.Pos(in.Pos()), "shortest round-trippable format (-1, 64) on a value that passed the NaN and Inf tests")
+				if okFmt {
+					c.OK("E5.float", con, p.Pos(in.Pos()), "shortest round-trippable format (-1, 64)")
 				} else {
-					d := []string{}
-					if !okFmt {
-						d = append(d, "the format is not ('f'|'g'|'e', -1, 64): ordinates would not round-trip bit for bit")
-					}
-					if !guards["math.IsNaN"] {
-						d = append(d, "not guarded by math.IsNaN")
-					}
-					if !guards["math.IsInf"] {
-						d = append(d, "not guarded by math.IsInf")
-					}
-					c.Bad("E5.float", con, p.Pos(in.Pos()), strings.Join(d, "; "))
+					c.Bad("E5.float", con, p.Pos(in.Pos()), "the format is not ('f'|'g'|'e', -1, 64): ordinates would not round-trip bit for bit")
 				}
 			}
 		}
 	}
 	c.Floor("E5.float", n, 1, "float formatting calls")
-	// every writer that emits a float field reaches it only through appendJSONFloat:
-	// no float-to-text conversion exists elsewhere (checked above), so it suffices
-	// that appendJSONFloat's non-guarded branch writes the constant null
-	sfn := p.SSAFunc(af)
-	okNull := false
-	for _, b := range sfn.Blocks {
-		for _, in := range b.Instrs {
-			if cl, ok := in.(*ssa.Call); ok {
-				if bi, ok := cl.Call.Value.(*ssa.Builtin); ok && bi.Name() == "append" && len(cl.Call.Args) == 2 {
-					if k, ok := cl.Call.Args[1].(*ssa.Const); ok && k.Value != nil && k.Value.Kind() == constant.String && constant.StringVal(k.Value) == "null" {
-						okNull = true
-					}
+	// the guard, decided by running the formatter abstractly for every outcome of
+	// the NaN and Inf tests (helpers are entered, so the tests may live anywhere)
+	row := &e8row{id: "geojson.appendJSONFloat#guard", fn: af,
+		what: "a finite value is formatted by strconv.AppendFloat, a NaN or an infinity is written as null; nothing else is appended",
+		spec: func(a *e8assign, n *e8names, out *e8out) string {
+			nan, inf := "", ""
+			for _, b := range n.bools {
+				if strings.HasPrefix(b, "math.IsNaN(") {
+					nan = b
+				}
+				if strings.HasPrefix(b, "math.IsInf(") {
+					inf = b
 				}
 			}
-		}
-	}
-	c.Expect(okNull, "E5.float", "geojson.appendJSONFloat#null", p.declPos(af), "non-finite values are written as null", "appendJSONFloat does not write null for non-finite values")
+			if nan == "" || inf == "" {
+				return "the value is not tested with both math.IsNaN and math.IsInf"
+			}
+			finite := !a.B(nan) && !a.B(inf)
+			fmts := out.in.called("AppendFloat")
+			apps := out.in.called("append")
+			nulls := 0
+			for _, ap := range apps {
+				if len(ap.args) == 2 && ap.args[1] != nil && ap.args[1].name == `"null"` {
+					nulls++
+				}
+			}
+			switch {
+			case finite && (len(fmts) != 1 || len(apps) != 0):
+				return "a finite value is not written by exactly one strconv.AppendFloat"
+			case !finite && (len(fmts) != 0 || nulls != 1 || len(apps) != 1):
+				return "a NaN/Inf value is not written as the single token null"
+			}
+			if finite && (len(fmts[0].args) < 2 || fmts[0].args[1] == nil || fmts[0].args[1].name != "p1") {
+				return "the formatted value is not the function's argument"
+			}
+			return ""
+		}}
+	p.runE8(c, row)
 }
